@@ -48,10 +48,11 @@ type checkIn struct {
 	Groups  []checkGroupIn     `json:"groups"`
 	GDepth  int                `json:"gdepth"`
 	RDepths []int              `json:"rdepths"`
-	Scheds  int                `json:"scheds"` // extra runs under seeded delay schedules
-	Mode    string             `json:"mode"`   // plain | fault | cancel
-	Widths  []int              `json:"widths"` // indices (0-based) into def.Widths to run; empty = all
-	QSel    []int              `json:"qsel"`   // query indices to run; empty = all
+	Scheds  int                `json:"scheds"`  // extra runs under seeded delay schedules
+	Mode    string             `json:"mode"`    // plain | fault | cancel
+	Widths  []int              `json:"widths"`  // indices (0-based) into def.Widths to run; empty = all
+	QSel    []int              `json:"qsel"`    // query indices to run; empty = all
+	BDepths []int              `json:"bdepths"` // plain mode: request depths at which all queries are also sent as one batch
 }
 
 type checkOut struct {
@@ -82,6 +83,10 @@ type checkOut struct {
 	BE    []string `json:"be,omitempty"` // engine.BatchCheck
 	BG    []string `json:"bg,omitempty"` // gRPC BatchCheck handler
 	BR    []string `json:"br,omitempty"` // REST batch handler
+	// plain mode: the batch transports at the request depths of bdepths (one string of entry codes per depth)
+	PBE []string `json:"pbe,omitempty"`
+	PBG []string `json:"pbg,omitempty"`
+	PBR []string `json:"pbr,omitempty"`
 }
 
 // memCode: I allowed, N not member, U unknown, E error, X error AND allowed.
@@ -381,6 +386,16 @@ func runGroup(t *testing.T, in *checkIn, out *ndWriter, e *checkEnv, gi, wi int,
 				}
 				o.Res = append(o.Res, string(codes))
 				o.Calls = append(o.Calls, calls)
+			}
+			if run == 0 && len(in.BDepths) > 0 {
+				var qs []*ketoapi.RelationTuple
+				for _, qi := range qsel {
+					qs = append(qs, def.Q[qi].api())
+				}
+				for _, d := range in.BDepths {
+					be, bg, br, _ := e.batch(t, qs, d, nil)
+					o.PBE, o.PBG, o.PBR = append(o.PBE, be), append(o.PBG, bg), append(o.PBR, br)
+				}
 			}
 			out.write(o)
 		}
